@@ -22,17 +22,19 @@ META = {
                   "start to the target whose weight is the minimum over all walks, the set query returns a nearest member "
                   "and a shortest path to it (also for one-element sets and with the start inside the set), the loop "
                   "bound of the model is never hit; proved against the contract 'pop returns a minimum-key entry and "
-                  "removes exactly it' (instantiated by a proved list queue; the heapq instance is executed and "
-                  "cross-checked). Weight selectors, relaxation comparison, sentinel and forwarded arguments are "
+                  "removes exactly it' under a representation invariant, which is proved both for a plain list queue and "
+                  "for the heapq algorithm with PriorityItem.__lt__ as generated from priority_queue.py (the instance "
+                  "that is executed in the correspondence). Weight selectors, relaxation comparison, sentinel and forwarded arguments are "
                   "regenerated from paths.py on every run; the hand-written loops are tied to the code by "
                   "kernel-evaluated correspondence batches on generated polylines, surfaces and volumes.",
     "level_note": "Trusted: Coq kernel + vm_compute; the paths.py translator; the correspondence harness (generators, "
                   "driver canonicalisation, mapping of dyadic float weights to integers by a common scale); that "
                   "mesh.connectivity.vertex_to_vertices agrees with mesh.edges (checked on every case, proved in C01/C03); "
-                  "heapq satisfies the queue contract (C20; here executed and cross-checked against the proved list "
-                  "queue). Floating-point round-off of general Euclidean lengths is outside the theorems: the 'length' "
-                  "mode is exercised on lattice meshes whose edge lengths are exact integers. The exported path "
-                  "polyline is only tested by the oracle.",
+                  "CPython's heapq is modelled from Lib/heapq.py (proofs copied from the C20 development); dict/list "
+                  "semantics assumed. Floating-point round-off is outside the theorems: the 'length' mode is exercised on lattice meshes "
+                  "whose edge lengths are exact integers, and on general coordinates through the exact dyadic values of "
+                  "the binary64 lengths with a 1e-9 relative tolerance on path weights. The exported path polyline and "
+                  "the absence of side effects on other queues are only tested by the oracle.",
 }
 
 HEADER = """From Coq Require Import ZArith List Bool.
@@ -215,8 +217,45 @@ def gen_case(rng):
         pool, den = [rng.randint(0, 40) for _ in range(npool)], rng.choice([2, 4, 8])
     else:
         pool, den = [rng.randint(0, 10 ** 6) for _ in range(npool)], 1
-    return {"build": b, "mode": mode, "wpool": pool, "wden": den, "unset": rng.choice([0, 0, 2, 3, 5]),
+    case = {"build": b, "mode": mode, "wpool": pool, "wden": den, "unset": rng.choice([0, 0, 2, 3, 5]),
             "wstyle": style, "queries": []}
+    # session scenarios: the answers must depend on the current mesh and the arguments only
+    if rng.random() < 0.3:
+        case["ambient"] = [[[rng.randrange(0, 12), rng.choice(AMBIENT_PRIOS)] for _ in range(rng.randint(1, 4))]
+                           for _ in range(rng.randint(1, 2))]
+    if rng.random() < 0.35:
+        case["pre"] = gen_pre(rng, b)
+    return case
+
+
+AMBIENT_PRIOS = [-2.0, -0.5, 0.0, 0.05, 0.1, 0.25, 1.0, 3.5]
+ATTR_NAMES = ["length", "length", "weights", "weight", "one", "distance", "w", "d"]
+
+
+def gen_pre(rng, b):
+    """Steps played on the mesh before the queries: geometric attributes stored and then made stale by moving the
+    vertices (the build coordinates become the OLD geometry, the model sees the new one), earlier queries, attributes
+    with colliding names holding arbitrary values."""
+    steps = []
+    r = rng.random()
+    if r < 0.6:
+        steps.append({"op": "edge_length", "name": rng.choice(["length", "length", "length", "l"]),
+                      "persistent": rng.random() < 0.85})
+        if rng.random() < 0.4:
+            steps.append({"op": "warm", "start": rng.randrange(50), "target": rng.randrange(50),
+                          "weights": rng.choice(["length", "one"])})
+        sc = rng.choice([(1, 2, 3), (2, 1, 1), (1, 3, 1), (5, 1, 2)])
+        if b["kind"] in ("arrays", "raw"):
+            final = b["V"]
+            b["V"] = [[p[0] * sc[0], p[1] * sc[1], p[2] * sc[2]] for p in final]
+            steps.append({"op": "move", "V": final})
+        else:
+            steps.append({"op": "scale", "s": list(sc)})
+    if r >= 0.45:
+        for _ in range(rng.randint(1, 2)):
+            steps.append({"op": "attr", "on": rng.choice(["edges", "edges", "vertices"]), "name": rng.choice(ATTR_NAMES),
+                          "values": [rng.choice([0, 0.5, 1, 7, 100, 0.001]) for _ in range(rng.randint(1, 5))]})
+    return steps
 
 
 def reach(n, edges, s):
@@ -315,10 +354,26 @@ def edge_weights(case, info):
     return w
 
 
+FLOAT_SCALE = 80     # binary64 lengths (exact dyadics) are handed to Coq as integer multiples of 2^-80
+
+
+def float_scaled(info):
+    from fractions import Fraction
+    out = []
+    for L in float_lengths(info):
+        fr = Fraction(L) * (1 << FLOAT_SCALE)
+        if fr.denominator != 1:
+            return None          # a length below 2^-27: not produced by the generators
+        out.append(int(fr))
+    return out
+
+
 def ws_term(case, info):
     mode = case["mode"]
     if mode == "one":
         return "WOne"
+    if mode == "length" and edge_weights(case, info) is None:
+        return "(WFloat %s)" % zlist(float_scaled(info))     # general coordinates: tolerance relation
     if mode == "length":
         return "(WLength %s)" % coq_list(["(%s, %s, %s)" % tuple(zlit(int(c)) for c in p) for p in info["coords"]])
     return "(WCustom %s)" % zlist(edge_weights(case, info))
@@ -471,7 +526,31 @@ def oracle_query(case, info, q, o):
     return polyline_problem(info, [p], pl)
 
 
+def ambient_problem(case, info, qi):
+    """the other priority queues of the session must hold exactly what was pushed into them"""
+    amb = case.get("ambient")
+    if not amb:
+        return None
+    want = [sorted(([float(p), x] for x, p in items), key=lambda t: (t[0], repr(t[1]))) for items in amb]
+    got = info.get("ambient_after", [])
+    got = got[qi] if qi < len(got) else None
+    if got != want:
+        return ("side effect on other objects: the session's other PriorityQueue objects held %s before the call and hold %s "
+                "after it" % (want, got))
+    return None
+
+
+def judge(case, info, qi):
+    q, o = case["queries"][qi], info["obs"][qi]
+    return oracle_query(case, info, q, o) or ambient_problem(case, info, qi)
+
+
 def classify(case, q, o):
+    scen = ("+ambient" if case.get("ambient") else "") + ("+pre" if case.get("pre") else "")
+    return classify_core(case, q, o) + scen
+
+
+def classify_core(case, q, o):
     form = q.get("targets", {}).get("form", "-")
     single = q["f"] == "set" and len(model_targets(q["targets"])) == 1
     return "%s/%s/%s/%s" % (q["f"] + ("-single" if single else ""), case["mode"] if case["mode"] in ("one", "length") else "custom",
@@ -496,7 +575,7 @@ def fails_single(case, qi):
     inf = core.run_impl(DRIVER, {"cases": [c]}, timeout=120)["cases"][0]
     if "error" in inf:
         return inf, None
-    return inf, oracle_query(c, inf, c["queries"][0], inf["obs"][0])
+    return inf, judge(c, inf, 0)
 
 
 def shrink(case, qi, budget=20):
@@ -506,9 +585,40 @@ def shrink(case, qi, budget=20):
     inf0, m0 = fails_single(cur, 0)
     if not m0:
         return cur
-    want = classify(cur, cur["queries"][0], inf0["obs"][0])     # only accept reductions failing the same way
+    want = classify_core(cur, cur["queries"][0], inf0["obs"][0])     # only accept reductions failing the same way
     if inf0["obs"][0][0] == "timeout":
         budget = min(budget, 6)
+
+    def still(cand):
+        try:
+            inf, m = fails_single(cand, 0)
+        except Exception:  # noqa
+            return False
+        return bool(m) and classify_core(cand, cand["queries"][0], inf["obs"][0]) == want
+    # scenario parts that are not needed for the failure go first
+    if cur.get("ambient"):
+        cand = dict(cur)
+        cand.pop("ambient")
+        if still(cand):
+            cur = cand
+        elif len(cur["ambient"]) > 1:
+            for k in range(len(cur["ambient"])):
+                cand = dict(cur, ambient=[cur["ambient"][k]])
+                if still(cand):
+                    cur = cand
+                    break
+    if cur.get("pre"):
+        i = 0
+        while i < len(cur["pre"]):
+            if cur["pre"][i]["op"] == "move":        # the move defines the geometry the case is about
+                i += 1
+                continue
+            cand = dict(cur, pre=cur["pre"][:i] + cur["pre"][i + 1:])
+            if still(cand):
+                cur = cand
+            else:
+                i += 1
+    b = cur["build"]
     msg0 = inf0["obs"][0][1:]
     if b["kind"] not in ("arrays", "raw"):
         return cur
@@ -524,7 +634,7 @@ def shrink(case, qi, budget=20):
             inf, m = fails_single(cand, 0)
         except Exception:
             inf, m = None, None
-        if m and classify(cand, cand["queries"][0], inf["obs"][0]) == want \
+        if m and classify_core(cand, cand["queries"][0], inf["obs"][0]) == want \
                 and (inf["obs"][0][0] in ("paths", "set", "border") or inf["obs"][0][1:] == msg0):
             cur, b = cand, cand["build"]
         else:
@@ -542,7 +652,9 @@ def run(ctx):
                 "surfaces; random vertex renumbering; modes one / length (exact integer lengths) / dict / Attribute (with unset "
                 "entries) with small, tied, zero, dyadic and spread weights; queries: single int, list/set/tuple/np.int64 list, "
                 "one-element collections, all reachable vertices, vertex sets (also containing the start, one-element, "
-                "duplicates), border, a few malformed (empty set, other component); 15% with export_path_mesh. "
+                "duplicates), border, a few malformed (empty set, other component); 15% with export_path_mesh; session scenarios: "
+                "other PriorityQueue objects alive with pending items (their content must be unchanged afterwards), stored "
+                "edge-length attributes made stale by moving the vertices, earlier queries, attributes with colliding names. "
                 "Non-trivial = some returned path has >= 3 vertices; distinct = by canonical JSON of mesh+weights+queries")
     ctx.assumptions += ["weights are non-negative and dyadic: mapped to integers by a common scale (the theorems are over Z)",
                         "vertex_to_vertices(v) lists exactly the other ends of the mesh edges at v (checked per case: adj_ok)",
@@ -587,6 +699,12 @@ def run(ctx):
         ctx.count("build " + (c["build"].get("name") or c["build"]["kind"]))
         ctx.count("mode " + c["mode"])
         ctx.count("vertices<=%d" % (10 * ((inf["n"] + 9) // 10)))
+        if c.get("ambient"):
+            ctx.count("scenario: other PriorityQueue objects alive with pending items")
+        for st in c.get("pre") or []:
+            ctx.count("scenario step " + st["op"] + ((" " + st["name"]) if st["op"] == "attr" else ""))
+        for pe in inf.get("pre_errors") or []:
+            ctx.count("scenario step failed: " + pe[0])
         longest = 0
         for qi, (q, o) in enumerate(zip(c["queries"], inf["obs"])):
             ctx.count("query %s %s" % (q["f"], q.get("targets", {}).get("form", "")))
@@ -601,20 +719,25 @@ def run(ctx):
                 longest = max(longest, len(o[2]))
             elif o[0] == "border":
                 longest = max(longest, len(o[1]))
-            m = oracle_query(c, inf, q, o)
+            m = judge(c, inf, qi)
             if m:
                 fails.append((ci, qi, m))
-        ctx.case_seen([c["build"], c["mode"], c["wpool"], c["wden"], c["unset"], c["queries"]], nontrivial=longest >= 3,
+        ctx.case_seen([c["build"], c["mode"], c["wpool"], c["wden"], c["unset"], c["queries"], c.get("ambient"), c.get("pre")],
+                      nontrivial=longest >= 3,
                       sample={"mesh": inf["type"], "n": inf["n"], "edges": inf["edges"][:8], "mode": c["mode"],
                               "query": c["queries"][0], "observed": inf["obs"][0][:3]})
     ctx.obligation("oracle: every returned path is an edge path start->target of minimum weight (Bellman-Ford), set queries end "
                    "at a nearest member", "oracle-on-implementation", True, "%d failing queries" % len(fails))
 
     bad = []
-    # cases with inexact Euclidean lengths (general coordinates) are judged by the oracle only
-    cidx = [i for i, (c, inf) in enumerate(zip(cases, infos)) if edge_weights(c, inf) is not None]
+    # "length" on general coordinates enters the correspondence through WFloat (exact dyadic lengths, answers compared
+    # with the relative tolerance 1e-9); only a mesh with a degenerate (sub-2^-27) length would be left to the oracle
+    cidx = [i for i, (c, inf) in enumerate(zip(cases, infos))
+            if edge_weights(c, inf) is not None or float_scaled(inf) is not None]
     ctx.count("cases in the kernel-checked correspondence", len(cidx))
-    ctx.count("cases judged by the oracle only (length mode, inexact coordinates)", len(cases) - len(cidx))
+    ctx.count("of which length mode on general coordinates (tolerance relation)",
+              sum(1 for i in cidx if edge_weights(cases[i], infos[i]) is None))
+    ctx.count("cases judged by the oracle only", len(cases) - len(cidx))
     if b["model_ok"]:
         bad = ctx.run_cases("paths", HEADER, [case_term(cases[i], infos[i]) for i in cidx], "check_case",
                             case_type=CASE_TYPE, shard=(12 if quick else 60))
@@ -654,8 +777,8 @@ def replay(ctx, data):
         print("driver error:", inf["error"])
         return 1
     rc = 0
-    for q, o in zip(case["queries"], inf["obs"]):
-        m = oracle_query(case, inf, q, o)
+    for qi, (q, o) in enumerate(zip(case["queries"], inf["obs"])):
+        m = judge(case, inf, qi)
         print("query:", json.dumps(q))
         print("observed:", json.dumps(o)[:600])
         print("FAILS: " + m if m else "passes")
